@@ -28,7 +28,7 @@ STACKS = ['map/map', 'file/map', 'map/file', 'file/file', 'push', 'pop']
 
 
 def shards(tier, seed):
-    return split(tier, seed, 3200, 32000, 40, 900)
+    return split(tier, seed, 16000, 600000, 40, 900)
 
 
 def fingerprint(d, prefix):
@@ -57,7 +57,9 @@ def run_case(sh, s, d, case):
     LOG = recfs.LOG
     LOG.reset()
     LOG.enabled = False
-    clock.install(clock.FakeClock())
+    cmode = random.Random(s + 5).choice(['normal', 'normal', 'stall', 'back', 'mixed'])
+    clock.install(clock.FakeClock(mode=cmode, rnd=random.Random(s + 6)))
+    sh.note('clock_modes', cmode)
     ZODB.DemoStorage.random = random.Random(s + 1)
     stack = rnd.choice(STACKS)
     bkind, ckind = {'map/map': ('map', 'map'), 'file/map': ('file', 'map'), 'map/file': ('map', 'file'),
